@@ -456,3 +456,86 @@ def disconnect_closes_and_releases_everything(c):
         assert rw.state != PENDING and (aw is None or aw.state != PENDING)
     else:
         assert sent == []
+
+
+# ------------------------------------------------------------------ the connection table of Management
+
+import xknx.management.management as mgmt_mod  # noqa: E402
+
+
+class FakeP2P:
+    """P2PConnection stand-in for the table lemmas (its own behaviour: lemmas above)."""
+
+    def __init__(self, xknx, address, rate_limit=20):
+        self.address = address
+        self.disconnect_hook = None
+        ghost("created").append(self)
+
+    async def connect(self):
+        ghost("T").append(("connect", self.address))
+        if ghost("connect_fails")[-1]:
+            raise ManagementConnectionError("no connection")
+
+    async def disconnect(self):
+        ghost("T").append(("disconnect", self.address))
+        self.disconnect_hook()
+        if ghost("disconnect_fails")[-1]:
+            raise ManagementConnectionError("disconnect failed")
+
+
+class Table:
+    """dict[IndividualAddress, connection] holding at most one entry (dict semantics, lookup by ==)."""
+
+    def __init__(self):
+        self.key, self.value = None, None
+
+    def __contains__(self, k):
+        return self.key is not None and self.key == k
+
+    def __setitem__(self, k, v):
+        assert self.key is None or self.key == k
+        self.key, self.value = k, v
+
+    def __delitem__(self, k):
+        if self.key is None or not (self.key == k):
+            raise KeyError(k)
+        self.key, self.value = None, None
+
+    def get(self, k, default=None):
+        return self.value if (self.key is not None and self.key == k) else default
+
+
+@lemma("C43", params=dict(m=Obj(Management, xknx=Obj(World), _connections=Obj(Table, key=None, value=None), _broadcast_contexts=Const(None)), a=ADDR, b=ADDR, connect_fails=Bool(), disconnect_fails=Bool(), body_fails=Bool()), stubs=[(mgmt_mod, "P2PConnection", FakeP2P)])
+def connection_context_opens_once_and_always_closes(m, a, b, connect_fails, disconnect_fails, body_fails):
+    """Management.connection(address): a frame belongs to 'an open connection' only between a successful
+    connect() and the disconnect - the connection is entered into the table only after connect()
+    succeeded, a second connection to the same address is refused, the context always disconnects (also
+    when its body raises) and the disconnect hook removes exactly this entry; a failed connect leaves the
+    table unchanged."""
+    ghost("connect_fails").append(connect_fails)
+    ghost("disconnect_fails").append(disconnect_fails)
+    raised = None
+    try:
+        async def use():
+            async with m.connection(a) as conn:
+                assert a in m._connections and m._connections.get(a) is conn
+                # a second connection to the same peer is refused while this one is open
+                try:
+                    await m.connect(a)
+                    assert False
+                except ManagementConnectionError:
+                    pass
+                if body_fails:
+                    raise RuntimeError("body failed")
+
+        run(use())
+    except ManagementConnectionError:
+        raised = "mgmt"
+    except RuntimeError:
+        raised = "body"
+    tr = ghost("T")
+    assert a not in m._connections
+    if connect_fails:
+        assert raised == "mgmt" and [x[0] for x in tr] == ["connect"] and len(ghost("created")) == 1
+    else:
+        assert [x[0] for x in tr] == ["connect", "disconnect"] and len(ghost("created")) == 1
